@@ -4,13 +4,17 @@
 package main
 
 import (
+	"encoding/json"
 	"fmt"
+	"os"
+	"path/filepath"
 	"strconv"
 	"strings"
 	"time"
 
 	"bfeverif/harness/internal/vh"
 	"github.com/baidu/go-lib/web-monitor/metrics"
+	"github.com/bfenetworks/bfe/bfe_balance"
 	"github.com/bfenetworks/bfe/bfe_balance/bal_gslb"
 	"github.com/bfenetworks/bfe/bfe_balance/bal_slb"
 	"github.com/bfenetworks/bfe/bfe_basic"
@@ -334,6 +338,52 @@ type world struct {
 	brr   *bal_slb.BalanceRR
 	gslb  *bal_gslb.BalanceGslb
 	slack time.Duration // longest (set clock → end of Balance) interval of the case
+	table *bfe_balance.BalTable // tinit: the history runs through the real BalTable (files → loaders → Init / BalTableReload → Lookup → Balance)
+	dir   string
+	ver   int
+}
+
+const clusterName = "cluster"
+
+// writeConfs writes gslb.data and cluster_table.data for one cluster with one sub-cluster.
+func (wd *world) writeConfs(c cluster_table_conf.SubClusterBackend) (string, string, error) {
+	wd.ver++
+	type bk struct {
+		Name   string
+		Addr   string
+		Port   int
+		Weight int
+	}
+	l := []bk{}
+	for _, b := range c {
+		l = append(l, bk{*b.Name, *b.Addr, *b.Port, *b.Weight})
+	}
+	g := map[string]interface{}{"Clusters": map[string]map[string]int{clusterName: {subName: 100}},
+		"Hostname": "verif", "Ts": strconv.Itoa(wd.ver)}
+	t := map[string]interface{}{"Version": strconv.Itoa(wd.ver),
+		"Config": map[string]map[string][]bk{clusterName: {subName: l}}}
+	gf, tf := filepath.Join(wd.dir, "gslb.data"), filepath.Join(wd.dir, "cluster_table.data")
+	gb, _ := json.Marshal(g)
+	tb, _ := json.Marshal(t)
+	if err := os.WriteFile(gf, gb, 0644); err != nil {
+		return "", "", err
+	}
+	return gf, tf, os.WriteFile(tf, tb, 0644)
+}
+
+// dump: current, weight, inSlowStart, weightSS.final and id of every list entry, in list order
+func (wd *world) dump() string {
+	addr, wt, cur := wd.brr.VerifC01Dump()
+	inSS, fin := wd.brr.VerifC01DumpSS()
+	ss := make([]int, len(inSS))
+	for i, b := range inSS {
+		ss[i] = b2i(b)
+	}
+	ids := make([]int, len(addr))
+	for i, a := range addr {
+		ids[i] = idOfInfo(a)
+	}
+	return "c=" + joinInts(cur) + ";w=" + joinInts(wt) + ";s=" + joinInts(ss) + ";f=" + joinInts(fin) + ";i=" + joinInts(ids)
 }
 
 // The harness chooses elapsed times as multiples of slowStartTime/1000 with weights ≤ 20 (final ≤ 2000) and
@@ -375,6 +425,17 @@ func parsePairs(s string) (cluster_table_conf.SubClusterBackend, bool) {
 }
 
 func (wd *world) balance() string {
+	if wd.table != nil {
+		g, err := wd.table.Lookup(clusterName)
+		if err != nil {
+			return "e"
+		}
+		b, err := g.Balance(&bfe_basic.Request{})
+		if err != nil || b == nil {
+			return "e"
+		}
+		return strconv.Itoa(idOfInfo(b.AddrInfo))
+	}
 	if wd.gslb != nil {
 		req := &bfe_basic.Request{}
 		b, err := wd.gslb.Balance(req)
@@ -398,6 +459,9 @@ func exec1(op string) (string, time.Duration) {
 func exec2(op string) (string, *world) {
 	wd := &world{}
 	r := exec3(op, wd)
+	if wd.dir != "" {
+		os.RemoveAll(wd.dir)
+	}
 	return r, wd
 }
 
@@ -405,11 +469,11 @@ func exec3(op string, wd *world) string {
 	var out []string
 	for k, o := range strings.Split(op, "|") {
 		f := strings.Split(o, " ")
-		if (k == 0) != (f[0] == "init" || f[0] == "ginit") {
+		if (k == 0) != (f[0] == "init" || f[0] == "ginit" || f[0] == "tinit") {
 			return "bad-op"
 		}
 		switch {
-		case (f[0] == "init" || f[0] == "ginit") && len(f) == 2:
+		case (f[0] == "init" || f[0] == "ginit" || f[0] == "tinit") && len(f) == 2:
 			var c cluster_table_conf.SubClusterBackend
 			if f[1] != "-" {
 				for i, s := range strings.Split(f[1], ",") {
@@ -420,7 +484,27 @@ func exec3(op string, wd *world) string {
 					c = append(c, conf(i, w))
 				}
 			}
-			if f[0] == "ginit" {
+			if f[0] == "tinit" {
+				d, err := os.MkdirTemp("/var/tmp", "verif-c01-")
+				if err != nil {
+					return "bad-op"
+				}
+				wd.dir = d
+				gf, tf, err := wd.writeConfs(c)
+				if err != nil {
+					return "bad-op"
+				}
+				t := bfe_balance.NewBalTable(nil)
+				if err := t.Init(gf, tf); err != nil {
+					return "bad-op" // the loaders reject a conf without a positive weight
+				}
+				g, err := t.Lookup(clusterName)
+				if err != nil {
+					return "bad-op"
+				}
+				wd.table = t
+				wd.brr = g.VerifC01SubBalancer(subName)
+			} else if f[0] == "ginit" {
 				g := bal_gslb.NewBalanceGslb("cluster")
 				if err := g.Init(gslb_conf.GslbClusterConf{subName: 100}); err != nil {
 					return "bad-op"
@@ -432,7 +516,7 @@ func exec3(op string, wd *world) string {
 				wd.brr = bal_slb.NewBalanceRR(subName)
 				wd.brr.Init(c)
 			}
-			out = append(out, "ok")
+			out = append(out, "ok;"+wd.dump())
 		case f[0] == "bal" && len(f) == 2:
 			ke := strings.Split(f[1], "@")
 			n, err := strconv.Atoi(ke[0])
@@ -455,17 +539,11 @@ func exec3(op string, wd *world) string {
 					wd.slack = d
 				}
 			}
-			_, wt, cur := wd.brr.VerifC01Dump()
-			inSS, fin := wd.brr.VerifC01DumpSS()
-			ss := make([]int, len(inSS))
-			for i, b := range inSS {
-				ss[i] = b2i(b)
-			}
 			p := "-"
 			if n > 0 {
 				p = strings.Join(ps, ",")
 			}
-			out = append(out, "p="+p+";c="+joinInts(cur)+";w="+joinInts(wt)+";s="+joinInts(ss)+";f="+joinInts(fin))
+			out = append(out, "p="+p+";"+wd.dump())
 		case f[0] == "ss" && len(f) == 2:
 			t, err := strconv.Atoi(f[1])
 			if err != nil || t < 0 {
@@ -492,12 +570,28 @@ func exec3(op string, wd *world) string {
 			if !ok {
 				return "bad-op"
 			}
-			if wd.gslb != nil {
+			res := "ok"
+			if wd.table != nil {
+				gf, tf, err := wd.writeConfs(c)
+				if err != nil {
+					return "bad-op"
+				}
+				// what the server does on a reload: load + check the files, then BalTableReload
+				gc, bc, err := wd.table.BalTableConfLoad(gf, tf)
+				if err != nil {
+					res = "rej"
+				} else if err := wd.table.BalTableReload(gc, bc); err != nil {
+					res = "rej"
+				}
+				if g, err := wd.table.Lookup(clusterName); err == nil {
+					wd.brr = g.VerifC01SubBalancer(subName)
+				}
+			} else if wd.gslb != nil {
 				wd.gslb.BackendReload(cluster_table_conf.ClusterBackend{subName: c})
 			} else {
 				wd.brr.Update(c)
 			}
-			out = append(out, "ok")
+			out = append(out, res+";"+wd.dump())
 		default:
 			return "bad-op"
 		}
